@@ -62,6 +62,15 @@ class Gen:
                     signature="S0" if (f == "C09" and r.random() < 0.3) else "",
                     extra=["EK", "ev"] if (f == "C09" and r.random() < 0.3) else [])
             c["_relreads"] = r.random() < 0.4       # the dependency file spells the paths relative to the working directory
+            if f == "C11" and reads and r.random() < 0.3:
+                # an explicit working-directory: relative names in the dependency file are relative to it
+                c["_wd"] = "wdir"; self.fs0.setdefault("wdir", dict(t="dir", c=""))
+                if c["_relreads"]:
+                    nr = []
+                    for x in reads:
+                        p = self.nodes[x]["path"]; n2 = SBX + "/wdir/../" + p
+                        self.nodes[n2] = node("file", p); nr.append(n2)
+                    c["reads"] = nr
             c["_failhow"] = r.choice(["exit 1", "exit 1", "exit 2", "exit 255", "kill -TERM $$", "kill -USR1 $$", "kill -ABRT $$", "kill -HUP $$"])
             if c["_depstyle"] == "makefile" and any(":" in x for x in reads): c["_depstyle"] = c["_depfmt"] = "depinfo"   # makefile syntax cannot express ':'
             cmds[name] = c; order.append(name); outs_avail += outs
